@@ -68,7 +68,9 @@ def main():
         for (path, saved, label), ok in pool.map(judge, todo):
             prop = saved["property"]
             key = (prop, saved["signature"], label.split(":")[0])
-            if not ok or key in existing or per.get((prop, origin), 0) >= LIMIT:
+            name = hashlib.sha1((saved["signature"] + json.dumps(saved["case"], sort_keys=True, default=str)).encode("utf-8")).hexdigest()[:14]
+            if not ok or key in existing or per.get((prop, origin), 0) >= LIMIT \
+                    or os.path.exists(os.path.join(base, prop, name + ".json")):
                 skipped += 1
                 continue
             existing[key] = 1
@@ -76,7 +78,6 @@ def main():
             body = {"property": prop, "signature": saved["signature"], "origin": label,
                     "message": saved.get("message", "")[:300], "case": saved["case"]}
             text = json.dumps(body, indent=1, sort_keys=True, default=str) + "\n"
-            name = hashlib.sha1((saved["signature"] + json.dumps(saved["case"], sort_keys=True, default=str)).encode("utf-8")).hexdigest()[:14]
             os.makedirs(os.path.join(base, prop), exist_ok=True)
             with open(os.path.join(base, prop, name + ".json"), "w", encoding="utf-8") as f:
                 f.write(text)
